@@ -543,3 +543,68 @@ func WriteIfChanged(path, content string) error {
 	}
 	return os.WriteFile(path, []byte(content), 0o644)
 }
+
+// LiteralSites lists "file:function" for every function (or "file:<top>" for package-level declarations) of the
+// non-test, non-verif Go files below dirs that contains the string literal lit (exactly) or uses the identifier ident
+// (either may be empty). It answers "who else touches this key".
+func LiteralSites(repo string, dirs []string, lit, ident string) ([]string, error) {
+	seen := map[string]bool{}
+	for _, d := range dirs {
+		err := filepath.Walk(filepath.Join(repo, d), func(p string, info os.FileInfo, err error) error {
+			if err != nil {
+				return err
+			}
+			if info.IsDir() || !strings.HasSuffix(p, ".go") || strings.HasSuffix(p, "_test.go") {
+				return nil
+			}
+			fset := token.NewFileSet()
+			af, err := parser.ParseFile(fset, p, nil, 0)
+			if err != nil {
+				return err
+			}
+			if hasVerifTag(p) {
+				return nil
+			}
+			rel, _ := filepath.Rel(repo, p)
+			hit := func(n ast.Node) bool {
+				found := false
+				ast.Inspect(n, func(x ast.Node) bool {
+					switch v := x.(type) {
+					case *ast.BasicLit:
+						if lit != "" && v.Kind == token.STRING && strings.Trim(v.Value, "\"`") == lit {
+							found = true
+						}
+					case *ast.Ident:
+						if ident != "" && v.Name == ident {
+							found = true
+						}
+					}
+					return !found
+				})
+				return found
+			}
+			for _, decl := range af.Decls {
+				switch dd := decl.(type) {
+				case *ast.FuncDecl:
+					if dd.Body != nil && hit(dd.Body) {
+						seen[rel+":"+dd.Name.Name] = true
+					}
+				case *ast.GenDecl:
+					if hit(dd) {
+						seen[rel+":<top>"] = true
+					}
+				}
+			}
+			return nil
+		})
+		if err != nil {
+			return nil, err
+		}
+	}
+	var out []string
+	for k := range seen {
+		out = append(out, k)
+	}
+	sort.Strings(out)
+	return out, nil
+}
